@@ -53,6 +53,7 @@ type Plan struct {
 	Tasks      [][]OpSpec  `json:"tasks"`
 	Sched      SchedSpec   `json:"sched"`
 	Faults     []FaultSpec `json:"faults"`
+	Free       bool        `json:"free,omitempty"`        // free-running mode (library starts goroutines / blocks on channels): schedule not owned
 	ColdFirst  bool        `json:"cold_first,omitempty"`  // simulate before any sequential baseline (lazy initialisation, memo tables and pools are met cold)
 	Prelude    []uint64    `json:"prelude,omitempty"`     // run indices executed (and discarded) before this plan on replay: the runs that preceded it in its worker process
 	ReplayMode bool        `json:"replay_mode,omitempty"` // true => execute exactly the segments of Schedule (then id order)
@@ -515,6 +516,11 @@ func ExecRun(p *Plan) *Record {
 	sort.Strings(rec.Fams)
 
 	x := &execution{p: p, rec: rec, slow: map[[2]int]bool{}, noisy: map[[2]int]bool{}}
+	if FreeMode || p.Free {
+		// no yield budget per task in free-running mode: the baselines must screen out
+		// operations that do not terminate before they are run in parallel
+		p.ColdFirst = false
+	}
 	if p.ColdFirst {
 		// Simulation BEFORE any sequential execution: whatever the library builds
 		// lazily, memoises or pools is first touched inside the tasks, not on the main
@@ -543,6 +549,10 @@ func ExecRun(p *Plan) *Record {
 	return rec
 }
 
+// FreeMode: set by the worker when the driver found blocking / spawning constructs
+// in the library (see vsimrt.Config.Free).
+var FreeMode bool
+
 // simCap: yield budget of one operation under simulation (see runInst).
 var simCap int64 = simOpYieldCap
 
@@ -564,7 +574,8 @@ func (x *execution) baselines() {
 	nslow := len(x.slow)
 	for t := range b1 {
 		for o := range b1[t] {
-			if b1[t][o].yields > maxBaselineYields && !x.slow[[2]int{t, o}] {
+			cut := (FreeMode || p.Free) && strings.Contains(b1[t][o].dump, "<yield budget exceeded>")
+			if (b1[t][o].yields > maxBaselineYields || cut) && !x.slow[[2]int{t, o}] {
 				x.slow[[2]int{t, o}] = true
 				rec.SlowOps = append(rec.SlowOps, p.Tasks[t][o].Fam+"/"+p.Tasks[t][o].Name)
 			}
@@ -621,7 +632,12 @@ func (x *execution) simulate(totals []int64, total int64) bool {
 	p, rec := x.p, x.rec
 	cfg := &vsimrt.Config{Seed: p.RunSeed, StallTask: int32(p.Sched.Stall), StallFor: p.Sched.StallFor, LowPrio: int32(p.Sched.LowPrio),
 		SiteFlags: siteFlags, NumSites: len(SiteTab)}
+	cfg.Free = p.Free || FreeMode
 	r := NewRng(Mix(p.RunSeed, 0x5c4ed))
+	if cfg.Free {
+		p.Free = true
+		p.Faults = []FaultSpec{}
+	}
 	span := func(t int) int64 {
 		if totals != nil {
 			return totals[t]
